@@ -1,4 +1,5 @@
 """C09 -- Printed value and uncertainty are the correctly rounded pair in every style."""
+import hashlib
 import json
 import os
 import re
@@ -63,22 +64,84 @@ def _q():
 
 
 # ---- running the implementation ------------------------------------------------------------------
-def configure(style, mode, n):
-    q = _q()
-    q.reset_default_configuration()
-    q.set_print_style(style)
-    if mode == "value":
-        q.set_sig_figs_for_value(n)
-    elif mode == "error":
-        q.set_sig_figs_for_error(n)
-    else:  # automatic mode is the default mode; only the number of figures is changed
-        q.get_settings().sig_fig_value = n
+ENUM_STYLE = {"default": "DEFAULT", "scientific": "SCIENTIFIC", "latex": "LATEX"}
 
 
-def run_impl(style, mode, n, v, e, via="measurement"):
-    """the printed text, or ('raised', class name)"""
+def configure(style, mode, n, how="reset"):
+    """how: "reset" (reset, then the q.set_* functions with the string spelling), "noreset" (the same calls on top of
+    whatever configuration is in force), "enum" (PrintStyle member, sig figs before the style), "settings" (the methods and
+    properties of the settings object)"""
     q = _q()
-    configure(style, mode, n)
+    if how in ("reset", "enum"):
+        q.reset_default_configuration()
+    st = q.get_settings()
+
+    def figures():
+        if mode == "value":
+            (st.set_sig_figs_for_value if how == "settings" else q.set_sig_figs_for_value)(n)
+        elif mode == "error":
+            (st.set_sig_figs_for_error if how == "settings" else q.set_sig_figs_for_error)(n)
+        else:
+            # automatic mode has no setter of its own: it is the mode after a reset, the number of figures is a property
+            if st.sig_fig_mode != q.SigFigMode.AUTOMATIC:
+                keep = (st.error_method, st.unit_style, st.monte_carlo_sample_size, st.plot_dimensions)
+                q.reset_default_configuration()
+                st.error_method, st.unit_style, st.monte_carlo_sample_size, st.plot_dimensions = keep
+            st.sig_fig_value = n
+
+    def the_style():
+        if how == "enum":
+            q.set_print_style(getattr(q.PrintStyle, ENUM_STYLE[style]))
+        elif how == "settings":
+            st.print_style = style
+        else:
+            q.set_print_style(style)
+    if how == "enum":
+        figures()
+        the_style()
+    else:
+        the_style()
+        figures()          # (an automatic-mode request may reset: the style is set again below)
+        if mode == "auto":
+            the_style()
+
+
+ROUTES = ["measurement", "array", "printer", "printer_arg", "typed_int", "typed_bool", "typed_np64", "typed_np32",
+          "typed_frac", "twins"]
+HOWS = ["reset", "noreset", "enum", "settings"]
+
+
+def typed(kind, x):
+    """x as another numeric type of EQUAL value, or None when that type cannot hold it"""
+    import numpy as np
+    from fractions import Fraction
+    if kind == "typed_int":
+        return int(x) if x == int(x) and abs(x) < 2 ** 53 else None
+    if kind == "typed_bool":
+        return bool(x) if x in (0.0, 1.0) else None
+    if kind == "typed_np64":
+        return np.float64(x)
+    if kind == "typed_np32":
+        y = np.float32(x)
+        return y if float(y) == x else None
+    if kind == "typed_frac":
+        return Fraction(x)
+    return x
+
+
+def applicable(via, v, e):
+    if via.startswith("typed_"):
+        return e >= 0 and typed(via, v) is not None and typed(via, e) is not None
+    return e >= 0 or via in ("printer", "printer_arg")
+
+
+def run_impl(style, mode, n, v, e, via="measurement", how="reset"):
+    """the printed text, or ('raised', class name).  Routes: str/repr of a Measurement; an element of a MeasurementArray;
+    get_printer() with the global style; get_printer(style) with an explicit style while another one is the global one;
+    a Measurement built from ints / numpy scalars / Fractions of equal value; "twins": a second, distinct object with the
+    SAME central value and another uncertainty is created and printed first"""
+    q = _q()
+    configure(style, mode, n, how)
     try:
         if via == "measurement" and e >= 0:
             m = q.Measurement(v, e)
@@ -87,6 +150,18 @@ def run_impl(style, mode, n, v, e, via="measurement"):
             if r != "MeasuredValue({})".format(s):
                 return ("inconsistent", "str {!r} repr {!r}".format(s, r))
             return s
+        if via == "twins" and e >= 0:
+            other = q.Measurement(v, e * 3 + abs(v) * 0.01 + 1e-9)
+            str(other)
+            m = q.Measurement(v, e)
+            s = str(m)
+            str(other)
+            return s if str(m) == s else ("inconsistent", "the same object printed twice: {!r} then {!r}".format(s, str(m)))
+        if via.startswith("typed_") and e >= 0:
+            tv, te = typed(via, v), typed(via, e)
+            if tv is None or te is None:
+                return ("not-applicable", via)
+            return str(q.Measurement(tv, te))
         if via == "array" and e >= 0:
             a = q.MeasurementArray([v, 1.0], error=[e, 0.1])
             s = str(a)
@@ -94,6 +169,10 @@ def run_impl(style, mode, n, v, e, via="measurement"):
                 return ("inconsistent", "array text {!r}".format(s))
             return s[2:-2].split(", ")[0]
         from qexpy.utils.printing import get_printer
+        if via == "printer_arg":
+            want = getattr(q.PrintStyle, ENUM_STYLE[style])
+            q.set_print_style([x for x in STYLES if x != style][n % 2])   # the global style is another one
+            return get_printer(want)(v, e)
         return get_printer()(v, e)
     except Exception as ex:  # noqa
         return ("raised", "{}: {}".format(type(ex).__name__, str(ex)[:80]))
@@ -145,7 +224,9 @@ def order(x):
 
 
 def ideal_digits(style, mode, n, fv, fe):
-    """digits per number in the correctly rounded text of the property (from the inputs alone)"""
+    """significant digits per number in the correctly rounded text of the property (from the inputs alone): from the
+    leading digit of the number to the last printed place; leading zeros of a small number in default style cost no
+    precision and do not count (0.0000000000322 +/- 0.0000000000012 has 3 and 2 digits)"""
     ex = 0
     if style != "default":
         ex = order(fv) if fv else (order(fe) if fe else 0)
@@ -153,11 +234,11 @@ def ideal_digits(style, mode, n, fv, fe):
     if not ref:
         return 1
     p = order(ref) - n + 1
-    d = max(0, ex - p)
+    last = ex - max(0, ex - p)          # exponent of the last printed place
     out = 1
     for x in (fv, fe):
         if x:
-            out = max(out, max(1, order(x) - ex + 1) + d)
+            out = max(out, order(x) - last + 1)
     return out
 
 
@@ -166,13 +247,19 @@ HEADS = ["95", "996", "9996", "995", "949", "9949", "99", "999", "9999", "99999"
          "15", "45", "9995", "99995", "999995", "105", "1005", "4999", "5001", "85", "35"]
 
 
+SPECIALS = ["1", "2", "10", "100", "1000", "0.1", "0.5", "5", "9", "9.5", "99", "999", "0.01", "0.001", "1e12", "1e-12",
+            "999999999999", "1.5", "2.5", "0.25", "12"]
+
+
 def gen_number(rng, positive=False):
     """decimal mantissa of <= 12 digits times 10^k, k in [-12, 12]; biased to carries, ties, powers of ten, zero"""
     r = rng.random()
     k = rng.randint(-12, 12)
     if r < 0.05:
         x = F(0)
-    elif r < 0.15:
+    elif r < 0.10:
+        x = F(rng.choice(SPECIALS))
+    elif r < 0.18:
         x = F(10) ** k
     elif r < 0.5:
         head = rng.choice(HEADS)
@@ -250,6 +337,31 @@ def powers_of_ten():
                             yield style, mode, n, v, e
 
 
+def extremes():
+    """deterministic sub-stream, always run: the ends of the property's range of magnitudes.  Small numbers in DEFAULT
+    style need many decimals (up to 17 for 1e-12 with n = 6), large ones many integer digits; a cap or a precision
+    limit on either shows only here"""
+    for k in list(range(-12, -5)) + list(range(6, 12)):
+        p10 = F(10) ** k
+        for me, mv in ((F(1234, 1000), F(32178, 1000)), (F(9961, 1000), F(-4567, 1000)), (F(5, 1), F(123456, 1000)),
+                       (F(321987, 100000), F(123456789, 100000)), (F(25, 10), F(0))):
+            v, e = float(mv * p10), float(me * p10)
+            if not all(x == 0 or 1e-12 <= abs(x) <= 1e12 for x in (v, e)):
+                continue
+            for mode in MODES:
+                for style in STYLES:
+                    for n in range(1, 7):
+                        if in_domain(style, mode, n, v, e):
+                            yield style, mode, n, v, e
+
+
+def fixed_substream():
+    for c in powers_of_ten():
+        yield c
+    for c in extremes():
+        yield c
+
+
 # ---- Coq encoding ---------------------------------------------------------------------------------
 def qlit(fr):
     return "({} # {})".format(fr.numerator, fr.denominator)
@@ -287,6 +399,94 @@ def shard_text(pairs):
             "Definition rep_exact := Eval vm_compute in (report bad_exact cases).\n"
             "Eval vm_compute in (map fst rep_any).\nEval vm_compute in (map snd rep_any).\n"
             "Eval vm_compute in (map fst rep_exact).\nEval vm_compute in (map snd rep_exact).\n")
+
+
+# ---- Coq encoding of object histories ---------------------------------------------------------------
+def coq_optq(x):
+    return "None" if x is None else "(Some {})".format(qlit(dec(x)))
+
+
+def coq_history(h, recs):
+    """the session projected onto each of its objects (the model has no interaction between objects): a list of
+    (text of (ostate, [(oop, obs)]), kept records) ; None if it cannot be encoded"""
+    if "exn" in recs[0]:
+        return None
+    news = [r for r in recs if r["op"][0] == "new"]
+    rest = recs[len(news):]
+    objects = {r["obj"]: r for r in news}
+    for r in rest:
+        if "derived" in r:
+            objects[r["derived"]] = dict(r, consts={}, kind="derived")
+    out = []
+    for i, new in sorted(objects.items()):
+        c = new.get("consts") or {}
+        if new.get("kind") == "repeated":
+            stats = "(Some {{| st_std := {}; st_eom := {}; st_ewm := {}; st_prop := {} |}})".format(
+                qlit(dec(c["std"])), qlit(dec(c["eom"])), coq_optq(c["ewm"]), coq_optq(c["prop"]))
+        else:
+            stats = "None"
+        st = ("{{| s_value := {}; s_error := {}; s_stats := {}; s_style := Default; "
+              "s_cfg := {{| c_mode := Auto; c_n := 1 |}} |}}").format(qlit(dec(new["value"])), qlit(dec(new["error"])), stats)
+        items, kept = [], []
+        started = new.get("kind") != "derived"
+        for r in rest:
+            op = r["op"]
+            k = op[0]
+            if r is new:
+                started = True
+                continue
+            if k == "config":
+                if "exn" in r:
+                    return None
+                items.append("(OConfig {} {} {}, None)".format(COQ_STYLE[op[1]], COQ_MODE[op[2]], op[3]))
+                kept.append(r)
+                continue
+            if not started or r.get("obj") != i or k in ("bad", "derive") or "skipped" in r:
+                continue                                  # another object's operation; a rejected / non-existent operation
+            if k != "print" and "exn" in r:
+                continue
+            if new.get("kind") == "derived":
+                if k != "print":
+                    continue
+                # a derived value follows its operands (that is C05's subject): the pair it holds now is an input here
+                items.append("(OSetValue {}, None)".format(qlit(dec(r["value"]))))
+                items.append("(OSetError {}, None)".format(qlit(dec(r["error"]))))
+                kept += [r, r]
+            if k == "print" and "cfg" in r and ideal_digits(r["cfg"][0], r["cfg"][1], r["cfg"][2], dec(r["value"]),
+                                                            abs(dec(r["error"]))) > 12:
+                if new.get("kind") == "derived":
+                    items, kept = items[:-2], kept[:-2]
+                continue                                  # beyond float precision of the exact model: not compared
+            if k == "print":
+                o = "OPrint"
+            elif k in ("value", "error", "rel"):
+                o = "({} {})".format({"value": "OSetValue", "error": "OSetError", "rel": "OSetRel"}[k], qlit(dec(float(op[1]))))
+            else:
+                o = {"use_std": "OUseStd", "use_eom": "OUseEom", "use_ewm": "OUseEwm", "use_prop": "OUseProp"}[k]
+            obs = coq_obs(r["text"] if "text" in r else ("raised", r.get("exn", ""))) if k == "print" else "None"
+            items.append("({}, {})".format(o, obs))
+            kept.append(r)
+        out.append(("({}, [{}])".format(st, "; ".join(items)), kept))
+    return out
+
+
+def hshard_text(cases):
+    return (HEADER + "From QV Require Import Model.PrintingObj.\nOpen Scope Z_scope.\n"
+            "Definition cases : list hcase := [\n" + ";\n".join(cases) + "].\n"
+            "Definition rep_any := Eval vm_compute in (hreport bad_hist_any cases).\n"
+            "Definition rep_exact := Eval vm_compute in (hreport bad_hist_exact cases).\n"
+            "Eval vm_compute in (map fst rep_any).\nEval vm_compute in (map snd rep_any).\n"
+            "Eval vm_compute in (map fst rep_exact).\nEval vm_compute in (map snd rep_exact).\n")
+
+
+def history_in_scope(recs):
+    """every print of the history is within float precision of the exact model (<= 14 significant digits)"""
+    for r in recs:
+        if r["op"][0] == "print" and "cfg" in r:
+            st, mo, n = r["cfg"]
+            if ideal_digits(st, mo, n, dec(r["value"]), abs(dec(r["error"]))) > 12:
+                return False
+    return True
 
 
 # ---- tags (what makes a case non-trivial), computed from the inputs and the printed text ----------------
@@ -332,8 +532,8 @@ def load_corpus():
 def correspondence(ctx):
     res = CorrResult()
     rng = ctx.rng
-    n_pairs = ctx.n(3000, 40000)
-    per_pair = ctx.n(9, 12)
+    n_pairs = ctx.n(2000, 24000)
+    per_pair = ctx.n(9, 10)
     n_wild = ctx.n(300, 6000)
     configs = all_configs()
     pairs = []       # (v, e, [(style, mode, n, out)], kind)
@@ -348,8 +548,11 @@ def correspondence(ctx):
             if digits > (12 if kind != "wild" else 14):
                 skipped += 1
                 continue
-            via = rng.choice(["measurement", "measurement", "array", "printer", "printer"]) if kind != "wild" else "printer"
-            out = run_impl(s, m, n, v, e, via)
+            via = rng.choice(["measurement", "measurement", "array", "printer", "printer", "printer_arg", "twins",
+                              rng.choice([r for r in ROUTES if r.startswith("typed_")])]) if kind != "wild" else "printer"
+            if not applicable(via, v, e):
+                via = "measurement" if e >= 0 else "printer"
+            out = run_impl(s, m, n, v, e, via, rng.choice(HOWS))
             ks.append((s, m, n, out))
             res.evaluations += 1
             res.count("{}:{}:{}".format(kind, s, m))
@@ -366,6 +569,8 @@ def correspondence(ctx):
             pairs.append((v, e, ks, kind))
 
     for c in load_corpus():
+        if c.get("kind", "print") != "print":
+            continue
         cc = c["case"]
         add(float(cc["v"]), float(cc["e"]), [(cc["style"], cc["mode"], cc["n"])], "corpus")
     for _ in range(n_pairs):
@@ -373,7 +578,9 @@ def correspondence(ctx):
         add(v, e, rng.sample(configs, per_pair), "stream")
     n_pow = 0
     by_pair = {}
-    for (st, mo, n, v, e) in powers_of_ten():
+    for (st, mo, n, v, e) in fixed_substream():
+        if ctx.quick and n in (3, 4, 6):      # the oracle runs all of it in both tiers; the correspondence half of it when quick
+            continue
         by_pair.setdefault((v, e), []).append((st, mo, n))
     for (v, e), cfgs in by_pair.items():
         add(v, e, cfgs, "powers-of-ten")
@@ -382,8 +589,7 @@ def correspondence(ctx):
     n_small = 0
     for v, e in small_scope(ctx.n(23, 1)):
         cfgs = [(s, m, n) for s in STYLES for m in MODES for n in (1, 2, 3)]
-        if ctx.quick:
-            cfgs = rng.sample(cfgs, 6)
+        cfgs = rng.sample(cfgs, 6 if ctx.quick else 15)
         add(v, e, cfgs, "small-scope")
         n_small += 1
     for _ in range(n_wild):
@@ -404,6 +610,44 @@ def correspondence(ctx):
     if cur:
         shards.append(shard_text([pairs[j][:3] for j in cur]))
         index.append(cur)
+    # object histories
+    hists, hcur, hindex, n_hprints, h_skipped = [], [], [], 0, 0
+    hist_corpus = [c["case"] for c in load_corpus() if c.get("kind") == "history"]
+    for i in range(ctx.n(600, 12000) + len(hist_corpus)):
+        h = hist_corpus[i] if i < len(hist_corpus) else gen_history(rng)
+        recs = run_history(h)
+        if "exn" in recs[0]:
+            h_skipped += 1
+            continue
+        encs = coq_history(h, recs)
+        if encs is None:
+            h_skipped += 1
+            continue
+        res.traces += 1
+        res.count("history:objects={}".format(len(encs)))
+        allk = [r for r in recs if r["op"][0] != "new"]
+        for r in allk:
+            res.count("history-op:" + r["op"][0] + (":" + r["op"][1] if r["op"][0] == "bad" else ""))
+        mods = [j for j, r in enumerate(allk) if r["op"][0] not in ("print", "config", "bad", "derive")]
+        prs = [j for j, r in enumerate(allk) if r["op"][0] == "print"]
+        if mods and prs and prs[0] < mods[-1] < prs[-1]:
+            res.nontrivial.add(core.canonical_key("h", h))     # printed, modified, printed again
+        for text, kept in encs:
+            hists.append((h, recs, kept))
+            hcur.append((len(hists) - 1, text))
+            prints = sum(1 for r in kept if r["op"][0] == "print")
+            n_hprints += prints
+            res.evaluations += prints
+        if len(hcur) >= 120:
+            shards.append(hshard_text([t for _, t in hcur]))
+            index.append(("hist", [j for j, _ in hcur]))
+            hcur = []
+    if hcur:
+        shards.append(hshard_text([t for _, t in hcur]))
+        index.append(("hist", [j for j, _ in hcur]))
+    res.extra["history_prints"] = n_hprints
+    res.extra["object_histories"] = len(hists)
+    res.extra["histories_skipped"] = h_skipped
     bads, logs = coq.run_case_files(ID, shards, keep=getattr(ctx, "keep_cases", False))
     near = 0
     near_samples = []
@@ -414,6 +658,16 @@ def correspondence(ctx):
             continue
         any_bad = set(zip(bad[0], bad[1]))
         exact_bad = set(zip(bad[2], bad[3]))
+        if isinstance(idx, tuple):           # a shard of object histories
+            for (i, j) in sorted(exact_bad):
+                h, recs, kept = hists[idx[1][i]]
+                if (i, j) in any_bad:
+                    res.disagreements.append({"name": "Model.PrintingObj.run vs str/repr/print_value_error of a modified object",
+                                              "kind": "history", "case": h, "step": j,
+                                              "printed": kept[j].get("text", kept[j].get("exn"))})
+                else:
+                    near += 1
+            continue
         for (i, j) in sorted(exact_bad):
             v, e, ks, kind = pairs[idx[i]]
             s, m, n, out = ks[j]
@@ -429,12 +683,12 @@ def correspondence(ctx):
     res.extra["near_tie_samples"] = near_samples
     res.extra["skipped_more_than_12_digits"] = skipped
     res.extra["small_scope_pairs"] = n_small
-    res.extra["small_scope_exhaustive"] = not ctx.quick
+    res.extra["small_scope_all_pairs"] = not ctx.quick
     res.rule = ("pairs (value, uncertainty) = decimal mantissas of <= 12 digits x 10^k, k in [-12, 12], biased to carry cases "
                 "(9.5.., 9.96.., 0.95.., 99.5), ties, exact powers of ten, zeros, negatives, 70% with the uncertainty -2..9 decades "
                 "below the value; each printed under {} of the 54 configurations (3 styles x 3 modes x n in 1..6) through "
                 "str(Measurement) / repr, str(MeasurementArray) or get_printer(); plus the small scope v = m/100, m in [-50, 1100] x 12 uncertainties "
-                "around the carries (stride 1 = exhaustive in the thorough tier), the deterministic powers-of-ten sub-stream (for every "
+                "around the carries (every pair in the thorough tier, under 15 of its 27 configurations; stride 23 and 6 configurations when quick), the deterministic powers-of-ten sub-stream (for every "
                 "k in [-12, 12] the reference number is exactly 10^k -- uncertainty in automatic / error mode, +-value in value "
                 "mode -- against partners with digits just below the rounding place, 3 styles, n in 1..6, always run) and a wild stream outside the property's domain "
                 "(negative uncertainty, 1e+-15, n <= 9, <= 14 digits). The printed text is parsed to (mantissa integers, decimals, "
@@ -442,7 +696,17 @@ def correspondence(ctx):
                 "tie both roundings are admitted (near_ties). Configurations whose correct text needs > 12 digits are skipped "
                 "(outside the property). non-trivial = at least one of: carry into the next decade, tie, zero value, zero "
                 "uncertainty, negative value, non-zero exponent, scientific fallback to default, rounding place left of the units; "
-                "distinct by (style, mode, n, value, uncertainty)").format(per_pair)
+                "distinct by (style, mode, n, value, uncertainty). "
+                "Sessions of objects: one to three single / repeated Measurements alive at once (40% a second object, often a "
+                "twin with the SAME central value; ints / numpy scalars / Fractions as inputs; one tiny uncertainty among "
+                "ordinary ones), derived values made from them after the operand was printed, 5-16 operations out of print "
+                "(str / repr / print_value_error / format / after printing another object), value / error / relative_error "
+                "assignment, use_std / use_error_on_mean / use_error_weighted_mean / use_propagated_error, rejected requests "
+                "offered twice (negative or non-numeric uncertainty / value, invalid figures, unknown style), changes between "
+                "two print configurations through four spellings (with and without a reset; 15% of the sessions start without "
+                "any configuration call); the session is projected onto each object, the model state (Model/PrintingObj.v) follows the operations and every printed text is compared "
+                "with the model printer on the model's current pair; a history is non-trivial when a modification lies between "
+                "two prints").format(per_pair)
     ex = [p for p in pairs if p[3] == "stream"][:3]
     res.samples = [{"value": repr(v), "uncertainty": repr(e),
                     "printed": [{"style": s, "mode": m, "n": n, "text": out} for s, m, n, out in ks[:3]]} for v, e, ks, _ in ex]
@@ -450,12 +714,17 @@ def correspondence(ctx):
 
 
 # ---- the property-level oracle (independent of the Coq model) ---------------------------------------------
-def check(style, mode, n, v, e, via="measurement"):
+def check(style, mode, n, v, e, via="measurement", how="reset"):
     """None, or what is wrong with the printed text of (v, e) under (style, mode, n)"""
-    out = run_impl(style, mode, n, v, e, via)
+    out = run_impl(style, mode, n, v, e, via, how)
     if not isinstance(out, str):
-        return "formatting {}: {}".format(out[0], out[1])
-    s = out
+        return "formatting {} (route {}, settings by {}): {}".format(out[0], via, how, out[1])
+    why = check_text(out, style, mode, n, v, e)
+    return "{} (route {}, settings by {})".format(why, via, how) if why and (via, how) != ("measurement", "reset") else why
+
+
+def check_text(s, style, mode, n, v, e):
+    """None, or why the text s is not the correctly rounded pair (v, e) under (style, mode, n)"""
     p = parse(s)
     if p is None:
         return "unreadable text {!r}".format(s)
@@ -524,6 +793,265 @@ def check(style, mode, n, v, e, via="measurement"):
     return None
 
 
+# ---- object-level histories: measurements printed, changed through every public path, printed again ------
+SINGLE_OPS = ["value", "error", "rel"]
+REPEATED_OPS = ["use_std", "use_eom", "use_ewm", "use_prop", "error", "rel", "value"]
+PRINT_ROUTES = ["str", "repr", "pve", "format", "array"]
+BAD_OPS = ["neg_error", "neg_rel", "str_value", "str_error", "bad_figs", "zero_figs", "bad_style"]
+DERIVE = ["mul2", "add1", "neg", "sum0"]
+NUM_TYPES = ["float", "float", "int", "np64", "np32", "frac"]
+
+
+def gen_object(rng, twin_of=None):
+    if twin_of is not None:      # a DISTINCT object with the SAME central value (and name), another uncertainty
+        return ["single", twin_of[1], repr(float(gen_number(rng, True))), "float"]
+    if rng.random() < 0.55:
+        v, e = gen_pair(rng)
+        return ["single", repr(v), repr(e), rng.choice(NUM_TYPES)]
+    centre = gen_number(rng)
+    if centre == 0:
+        centre = 5.0
+    spread = abs(centre) * rng.choice([0.001, 0.01, 0.05, 0.3])
+    k = rng.randint(3, 7)
+    data = [float(dec(centre) + dec(spread) * F(rng.randint(-100, 100), 100)) for _ in range(k)]
+    if len(set(data)) < 2:
+        data[0] = float(dec(data[0]) + dec(spread))
+    errs = None
+    r = rng.random()
+    if r < 0.5:
+        errs = [float(dec(spread) * F(rng.randint(20, 150), 100)) for _ in range(k)]
+    elif r < 0.65:                # one tiny uncertainty among ordinary ones
+        errs = [float(dec(spread))] * k
+        errs[rng.randrange(k)] = float(dec(spread) * F(1, 10 ** 6))
+    return ["repeated", [repr(x) for x in data], [repr(x) for x in errs] if errs else None]
+
+
+def gen_history(rng):
+    """{"objs": [...], "ops": [...]}: one to three objects alive at once (twins: equal central values), a pool of two print
+    configurations so that a configuration is used again after a modification, rejected calls offered twice, objects
+    printed before they are used as operands"""
+    pool = [(rng.choice(STYLES), rng.choice(MODES), rng.randint(1, 6)) for _ in range(2)]
+    objs = [gen_object(rng)]
+    if rng.random() < 0.4:
+        objs.append(gen_object(rng, twin_of=objs[0]) if objs[0][0] == "single" and rng.random() < 0.6 else gen_object(rng))
+    kinds = [o[0] for o in objs]
+    ops = []
+    if rng.random() < 0.85:      # some sessions do not begin with a reset / any configuration call
+        ops.append(["config"] + list(pool[0]) + [rng.choice(HOWS)])
+    for _ in range(rng.randint(4, 14)):
+        r = rng.random()
+        i = rng.randrange(len(kinds))
+        if r < 0.42:
+            ops.append(["print", rng.choice(PRINT_ROUTES), i])
+        elif r < 0.75:
+            if kinds[i] == "derived":
+                ops.append(["print", rng.choice(PRINT_ROUTES), i])
+                continue
+            op = rng.choice(SINGLE_OPS if kinds[i] == "single" else REPEATED_OPS)
+            if op == "value":
+                ops.append(["value", repr(gen_number(rng)), i])
+            elif op == "error":
+                ops.append(["error", repr(gen_number(rng, True)), i])
+            elif op == "rel":
+                ops.append(["rel", repr(rng.choice([0.0, 0.001, 0.01, 0.05, 0.096, 0.1, 0.25, 0.5, 0.95, 2.0])), i])
+            else:
+                ops.append([op, i])
+        elif r < 0.83:
+            bad = ["bad", rng.choice(BAD_OPS), i]
+            ops += [bad, list(bad)]                     # the same invalid request twice
+        elif r < 0.90 and len(kinds) < 4:
+            if rng.random() < 0.7:
+                ops.append(["print", rng.choice(PRINT_ROUTES), i])     # read before being used as an operand
+            ops.append(["derive", rng.choice(DERIVE), i])
+            kinds.append("derived")
+        else:
+            ops.append(["config"] + list(rng.choice(pool)) + [rng.choice(HOWS)])
+    for i in range(len(kinds)):
+        ops.append(["print", rng.choice(PRINT_ROUTES), i])
+    return {"objs": objs, "ops": ops}
+
+
+def build_object(q, o):
+    if o[0] == "single":
+        kind = {"float": None, "int": "typed_int", "np64": "typed_np64", "np32": "typed_np32", "frac": "typed_frac"}[o[3]]
+        v, e = float(o[1]), float(o[2])
+        if kind and typed(kind, v) is not None and typed(kind, e) is not None:
+            v, e = typed(kind, v), typed(kind, e)
+        return q.Measurement(v, e)
+    data = [float(t) for t in o[1]]
+    return q.Measurement(data, [float(t) for t in o[2]]) if o[2] else q.Measurement(data)
+
+
+def run_history(h):
+    """-> list of records, one per object built and per op: {"op", "obj", "value", "error", "text", "cfg", "exn", "consts"};
+    value/error are read through the public properties of the object concerned after the op.  No reset at the beginning
+    beyond the one every check starts from; the configuration in force is tracked as (style, mode, n)"""
+    import math
+    import warnings
+    q = _q()
+    q.reset_default_configuration()
+    out = []
+    cfg = ("default", "auto", 1)
+    xs = []
+    with warnings.catch_warnings():
+        warnings.simplefilter("ignore")
+        try:
+            for o in h["objs"]:
+                try:
+                    x = build_object(q, o)
+                except Exception as ex:  # noqa
+                    return [{"op": ["new"], "exn": "{}: {}".format(type(ex).__name__, str(ex)[:80])}]
+                consts = {}
+                if o[0] == "repeated":
+                    consts = {"std": x.std, "eom": x.error_on_mean, "ewm": x.error_weighted_mean, "prop": x.propagated_error}
+                    consts = {k: (None if (isinstance(v, float) and math.isnan(v)) else float(v)) for k, v in consts.items()}
+                xs.append(x)
+                out.append({"op": ["new"], "obj": len(xs) - 1, "value": float(x.value), "error": float(x.error), "consts": consts,
+                            "kind": o[0]})
+            for op in h["ops"]:
+                rec = {"op": op}
+                k = op[0]
+                i = op[-1] if k != "config" else None
+                try:
+                    if k == "config":
+                        configure(op[1], op[2], op[3], op[4])
+                        cfg = (op[1], op[2], op[3])
+                    elif i >= len(xs):
+                        rec["skipped"] = "no such object"
+                    elif k == "print":
+                        x = xs[i]
+                        if op[1] == "str":
+                            t = str(x)
+                        elif op[1] == "repr":
+                            m_ = re.match(r"^\w+\((.*)\)$", repr(x))
+                            t = m_.group(1) if m_ else repr(x)
+                        elif op[1] == "pve":
+                            t = x.print_value_error()
+                        elif op[1] == "format":
+                            t = "{}".format(x)
+                        else:   # another object printed in between must not matter
+                            str(q.MeasurementArray([1.0, 2.0], error=[0.1, 0.1]))
+                            t = x.print_value_error()
+                        rec["text"] = t
+                        rec["cfg"] = list(cfg)
+                    elif k == "value":
+                        xs[i].value = float(op[1])
+                    elif k == "error":
+                        xs[i].error = float(op[1])
+                    elif k == "rel":
+                        xs[i].relative_error = float(op[1])
+                    elif k == "use_std":
+                        xs[i].use_std_for_uncertainty()
+                    elif k == "use_eom":
+                        xs[i].use_error_on_mean_for_uncertainty()
+                    elif k == "use_ewm":
+                        xs[i].use_error_weighted_mean_as_value()
+                    elif k == "use_prop":
+                        xs[i].use_propagated_error_for_uncertainty()
+                    elif k == "derive":
+                        a = xs[i]
+                        d = {"mul2": lambda: a * 2, "add1": lambda: a + 1, "neg": lambda: -a, "sum0": lambda: a + xs[0]}[op[1]]()
+                        xs.append(d)
+                        rec["derived"] = len(xs) - 1
+                        i = len(xs) - 1
+                    elif k == "bad":
+                        w = op[1]
+                        try:
+                            if w == "neg_error":
+                                xs[i].error = -1.0
+                            elif w == "neg_rel":
+                                xs[i].relative_error = -0.5
+                            elif w == "str_value":
+                                xs[i].value = "12"
+                            elif w == "str_error":
+                                xs[i].error = "0.1"
+                            elif w == "bad_figs":
+                                q.set_sig_figs_for_error(2.5)
+                            elif w == "zero_figs":
+                                q.set_sig_figs_for_value(0)
+                            elif w == "bad_style":
+                                q.set_print_style("fancy")
+                            rec["accepted"] = True          # not this property's business, but the state may have changed
+                        except AttributeError:
+                            rec["rejected"] = True          # read-only on a derived value
+                        except (ValueError, TypeError) as ex:
+                            rec["rejected"] = True
+                    else:
+                        raise ValueError("unknown op {}".format(op))
+                except AttributeError as ex:
+                    rec["skipped"] = str(ex)[:60]      # use_* after the value was overridden, setters of a derived value
+                except Exception as ex:  # noqa
+                    rec["exn"] = "{}: {}".format(type(ex).__name__, str(ex)[:80])
+                if i is not None and i < len(xs):
+                    rec["obj"] = i
+                    try:
+                        rec["value"], rec["error"] = float(xs[i].value), float(xs[i].error)
+                    except Exception as ex:  # noqa
+                        rec["exn"] = "{}: {}".format(type(ex).__name__, str(ex)[:80])
+                out.append(rec)
+        finally:
+            q.reset_default_configuration()
+    return out
+
+
+def history_fails(h):
+    """None, or why some printed text of the history is not the printed object's CURRENT value and uncertainty, correctly
+    rounded under the configuration in force"""
+    recs = run_history(h)
+    for i, r in enumerate(recs):
+        if r["op"][0] == "new" and "exn" in r:
+            return None                      # the object could not be built: not a printing matter
+        if r["op"][0] != "print" or "skipped" in r:
+            continue
+        if "exn" in r:
+            return "step {}: printing raised {}".format(i, r["exn"])
+        style, mode, n = r["cfg"]
+        v, e = r["value"], r["error"]
+        if not (e >= 0) or v != v or not in_domain(style, mode, n, v, e):
+            continue
+        why = check_text(r["text"], style, mode, n, v, e)
+        if why:
+            return "step {} ({}): the object holds {!r} +/- {!r}; {}".format(i, "/".join(map(str, r["op"])), v, e, why)
+    return None
+
+
+def shrink_history(h):
+    ops = core.shrink_list(h["ops"], lambda o: history_fails(dict(h, ops=o)) is not None)
+    best = dict(h, ops=ops)
+    # fewer / simpler objects
+    used = sorted({op[-1] for op in best["ops"] if op[0] != "config"})
+    if used and len(best["objs"]) > 1 and not any(op[0] == "derive" for op in best["ops"]):
+        keep = [j for j in range(len(best["objs"])) if j in used]
+        ren = {j: k for k, j in enumerate(keep)}
+        c = {"objs": [best["objs"][j] for j in keep],
+             "ops": [op if op[0] == "config" else op[:-1] + [ren[op[-1]]] for op in best["ops"]]}
+        try:
+            if history_fails(c):
+                best = c
+        except Exception:  # noqa
+            pass
+    for j, o in enumerate(best["objs"]):
+        for cand in ([["single", "5.0", "0.5", "float"], ["single", o[1], o[2], "float"]] if o[0] == "single" else
+                     [["repeated", ["5.0", "5.2", "4.9", "5.1"], None], ["repeated", o[1], None]]):
+            c = dict(best, objs=best["objs"][:j] + [cand] + best["objs"][j + 1:])
+            try:
+                if history_fails(c):
+                    best = c
+                    break
+            except Exception:  # noqa
+                pass
+    # simpler configurations
+    for i, op in enumerate(best["ops"]):
+        if op[0] == "config":
+            for cfgc in (["config", "default", "auto", 1, "reset"], ["config", "default", op[2], op[3], "reset"],
+                         ["config", op[1], op[2], 1, "reset"], ["config", op[1], op[2], op[3], "reset"]):
+                c = dict(best, ops=best["ops"][:i] + [cfgc] + best["ops"][i + 1:])
+                if history_fails(c):
+                    best = c
+                    break
+    return best
+
+
 def in_domain(style, mode, n, v, e):
     fv, fe = dec(v), dec(e)
     for x in (fv, fe):
@@ -540,7 +1068,15 @@ def fails(case):
     style, mode, n, v, e = case["style"], case["mode"], case["n"], float(case["v"]), float(case["e"])
     if not in_domain(style, mode, n, v, e):
         return None
-    return check(style, mode, n, v, e) or check(style, mode, n, v, e, "printer") or check(style, mode, n, v, e, "array")
+    why = check(style, mode, n, v, e) or check(style, mode, n, v, e, "printer", "noreset") \
+        or check(style, mode, n, v, e, "array", "enum")
+    if why:
+        return why
+    # one more entry point / number type / spelling per case, chosen by the case itself (deterministic)
+    h = int(hashlib.sha256(json.dumps(case, sort_keys=True).encode()).hexdigest()[:8], 16)
+    extra = [r for r in ROUTES[3:] if applicable(r, v, e)]
+    via = extra[h % len(extra)]
+    return check(style, mode, n, v, e, via, HOWS[(h >> 8) % len(HOWS)])
 
 
 def shorter(x):
@@ -609,31 +1145,96 @@ def search(ctx, suspects, budget):
         c = s.get("case")
         if c and "style" in c:
             todo.append({k: c[k] for k in ("style", "mode", "n", "v", "e")})
-    todo += [c["case"] for c in load_corpus()]
+    todo += [c["case"] for c in load_corpus() if c.get("kind", "print") == "print"]
     configs = all_configs()
     tried = 0
     small = list(small_scope(ctx.n(9, 1)))
 
-    def report(c):
-        why = fails(c)
+    # Everything the oracle runs goes through one journal: when an input fails only after the inputs that ran before it
+    # in this interpreter (state the library keeps between calls), the witness reported is the shortest such session,
+    # replayed from a freshly imported library.
+    journal = []
+
+    def run_entry(entry):
+        return fails(entry[1]) if entry[0] == "print" else history_fails(entry[1])
+
+    def session_fails(entries):
+        core.fresh_impl()
+        why = None
+        for en in entries:
+            try:
+                why = run_entry(en)
+            except Exception as ex:  # noqa
+                why = "{}: {}".format(type(ex).__name__, ex)
+        return why
+
+    def examine(entry):
+        """run one entry; on failure decide: fails on its own (shrink it) or only as the end of a session"""
+        if len(journal) >= 1500:
+            core.fresh_impl()
+            del journal[:]
+        why = run_entry(entry)
         if not why:
+            journal.append(entry)
             return
-        small_c = shrink(c)
-        why = fails(small_c) or why
-        key = re.sub(r"[-\d.]+", "#", why)[:50]
-        if key in seen:
-            return
-        seen.add(key)
-        out.append(Violation(ID, "print", small_c, "{} with {}".format(why, small_c)))
+        core.fresh_impl()
+        alone = run_entry(entry)
+        if alone:
+            del journal[:]
+            if entry[0] == "print":
+                small_c = shrink(entry[1])
+                why = fails(small_c) or alone
+                key = re.sub(r"[-\d.]+", "#", why)[:50]
+                v = Violation(ID, "print", small_c, "{} with {}".format(why, small_c))
+            else:
+                small_c = shrink_history(entry[1])
+                why = history_fails(small_c) or alone
+                key = "history:" + re.sub(r"[-\d.]+", "#", why)[:60]
+                v = Violation(ID, "history", small_c, why)
+        else:
+            prefix = core.minimize_session(list(journal), lambda pre: session_fails(pre + [entry]) is not None)
+            sess = [list(en) for en in prefix + [entry]]
+            why2 = session_fails(sess) or why
+            key = "session:" + re.sub(r"[-\d.]+", "#", why2)[:60]
+            v = Violation(ID, "session", {"session": sess},
+                          "after {} earlier input(s) in the same interpreter: {}".format(len(prefix), why2))
+            core.fresh_impl()
+            del journal[:]
+        if key not in seen:
+            seen.add(key)
+            out.append(v)
+
+    def report(c):
+        examine(("print", c))
 
     # deterministic part, independent of the budget: exact powers of ten at every exponent
     n_pow = 0
-    for (st, mo, n, v, e) in powers_of_ten():
+    for (st, mo, n, v, e) in fixed_substream():
         if len(out) >= 3:
             break
         n_pow += 1
         report(case_of(st, mo, n, v, e))
-    ctx.notes.append("oracle: {} deterministic powers-of-ten cases".format(n_pow))
+    ctx.notes.append("oracle: {} deterministic cases (powers of ten at every exponent, ends of the magnitude range)".format(n_pow))
+    # the same inputs again, later in the same interpreter and under another configuration in between
+    again = [case_of(st, mo, n, v, e) for k, (st, mo, n, v, e) in enumerate(fixed_substream()) if k % 23 == 0]
+    for c in again:
+        if len(out) >= 3:
+            break
+        report(c)
+    # object-level sessions (print, modify through every public path, print again), a fixed number per run
+    n_hist = 0
+    hs = [s_["case"] for s_ in suspects if s_.get("kind") == "history" and s_.get("case")]
+    hs += [c["case"] for c in load_corpus() if c.get("kind") == "history"]
+    for i in range(ctx.n(400, 6000)):
+        hs.append(None)
+    for h in hs:
+        if len(out) >= 3:
+            break
+        if h is None:
+            h = gen_history(rng)
+        n_hist += 1
+        examine(("history", h))
+    ctx.notes.append("oracle: {} object sessions".format(n_hist))
     while len(out) < 3:
         if todo:
             cases = [todo.pop(0)]
@@ -653,5 +1254,13 @@ def search(ctx, suspects, budget):
 
 
 def replay(ctx, v):
+    if v["kind"] == "session":
+        why = None
+        for kind, c in v["case"]["session"]:
+            why = fails(c) if kind == "print" else history_fails(c)
+        return Violation(ID, v["kind"], v["case"], why) if why else None
+    if v["kind"] == "history":
+        why = history_fails(v["case"])
+        return Violation(ID, v["kind"], v["case"], why) if why else None
     why = fails(v["case"])
     return Violation(ID, v["kind"], v["case"], why) if why else None
